@@ -47,7 +47,12 @@ func zzPool() (*VerifyPool, *zzEngine, *ledger.Ledger) {
 	return &VerifyPool{ledger: lg, ve: ve, logger: zz.Logger(), bitxhubID: "1356"}, ve, lg
 }
 
-var zzRuleStatuses = []governance.GovernanceStatus{governance.GovernanceAvailable, governance.GovernanceBindable, governance.GovernanceForbidden, governance.GovernanceBinding}
+var zzRuleStatuses = []governance.GovernanceStatus{governance.GovernanceAvailable, governance.GovernanceBindable, governance.GovernanceForbidden, governance.GovernanceBinding,
+	governance.GovernanceUnavailable, governance.GovernanceUnbinding}
+
+// the master flag a rule in that status carries in reachable states: the bound rule has it, a rule
+// being unbound still has it, and ClearRule (appchain logged out) leaves it on the unavailable rule
+var zzRuleMaster = []bool{true, false, false, false, true, true}
 
 // ZZH_C03_verify_proof: CheckProof on an appchain IBTP with symbolic proof bytes / committed
 // hash / type / registration / rule list / rule verdict: accepted only if the proof hashes to
@@ -55,7 +60,12 @@ var zzRuleStatuses = []governance.GovernanceStatus{governance.GovernanceAvailabl
 // AVAILABLE rule of exactly that chain, and the rule said yes.
 func ZZH_C03_verify_proof() {
 	pl, ve, lg := zzPool()
-	// registered appchain chA (and maybe chB) with rule lists
+	// registered appchain chA (and maybe chB); the chain the IBTP originates from has a symbolic rule list
+	isReq := zz.Choice("request", 2) == 1
+	origin := "chA"
+	if !isReq {
+		origin = "chB"
+	}
 	chains := []string{"chA", "chB"}
 	ruleAddr := map[string]string{}
 	for ci, ch := range chains {
@@ -65,12 +75,16 @@ func ZZH_C03_verify_proof() {
 		app := &appchainMgr.Appchain{ID: ch, TrustRoot: []byte("root-" + ch), Status: governance.GovernanceAvailable}
 		data, _ := json.Marshal(app)
 		lg.SetState(constant.AppchainMgrContractAddr.Address(), []byte(appchainMgr.AppchainKey(ch)), data, nil)
-		n := zz.Choice("rules-"+ch, 3)
+		n := 0
+		if ch == origin {
+			n = zz.Choice("rules-"+ch, zz.Tier(3, 4))
+		}
 		var rules []*ruleMgr.Rule
 		for i := 0; i < n; i++ {
-			st := zzRuleStatuses[zz.Choice("ruleStatus", len(zzRuleStatuses))]
+			si := zz.Choice("ruleStatus", len(zzRuleStatuses))
+			st := zzRuleStatuses[si]
 			addr := "0xRULE-" + ch + "-" + string("012"[i])
-			rules = append(rules, &ruleMgr.Rule{Address: addr, ChainID: ch, Status: st})
+			rules = append(rules, &ruleMgr.Rule{Address: addr, ChainID: ch, Status: st, Master: zzRuleMaster[si]})
 			if st == governance.GovernanceAvailable && ruleAddr[ch] == "" {
 				ruleAddr[ch] = addr
 			}
@@ -89,13 +103,10 @@ func ZZH_C03_verify_proof() {
 	ho := sha256.Sum256(other)
 	commits := [][]byte{h[:], ho[:], make([]byte, 32)}
 	ck := zz.Choice("committedHash", 3)
-	isReq := zz.Choice("request", 2) == 1
 	from, to := "1356:chA:s1", "1356:chB:s2"
 	typ := pb.IBTP_INTERCHAIN
-	origin := "chA"
 	if !isReq {
 		typ = pb.IBTP_RECEIPT_SUCCESS
-		origin = "chB"
 	}
 	ibtp := &pb.IBTP{From: from, To: to, Index: 1, Type: typ, Proof: commits[ck]}
 	tx := &pb.BxhTransaction{IBTP: ibtp, Extra: proof, TransactionHash: types.NewHashByStr("0x1111111111111111111111111111111111111111111111111111111111111111")}
